@@ -17,16 +17,16 @@ Notation EL := (eval_loop go_text rec m).
 
 Lemma el_all rest : EL (S_ "ALL" :: rest) = EL rest.
 Proof. reflexivity. Qed.
-Lemma el_has f rest : EL (has_token f :: rest) = andk (contains (m_flags m) (flag_name f)) (EL rest).
+Lemma el_has f rest : EL (has_token f :: rest) = andk (has_flag_go (m_flags m) (flag_name f)) (EL rest).
 Proof. destruct f; reflexivity. Qed.
-Lemma el_un f rest : EL (un_token f :: rest) = andk (negb (contains (m_flags m) (flag_name f))) (EL rest).
+Lemma el_un f rest : EL (un_token f :: rest) = andk (negb (has_flag_go (m_flags m) (flag_name f))) (EL rest).
 Proof. destruct f; reflexivity. Qed.
 Lemma el_new rest : EL (S_ "NEW" :: rest) =
-  andk (contains (m_flags m) flag_recent && negb (contains (m_flags m) flag_seen)) (EL rest).
+  andk (has_flag_go (m_flags m) flag_recent && negb (has_flag_go (m_flags m) flag_seen)) (EL rest).
 Proof. reflexivity. Qed.
-Lemma el_keyword w rest : EL (S_ "KEYWORD" :: w :: rest) = andk (contains (m_flags m) (unquote w)) (EL rest).
+Lemma el_keyword w rest : EL (S_ "KEYWORD" :: w :: rest) = andk (has_flag_go (m_flags m) (unquote w)) (EL rest).
 Proof. reflexivity. Qed.
-Lemma el_unkeyword w rest : EL (S_ "UNKEYWORD" :: w :: rest) = andk (negb (contains (m_flags m) (unquote w))) (EL rest).
+Lemma el_unkeyword w rest : EL (S_ "UNKEYWORD" :: w :: rest) = andk (negb (has_flag_go (m_flags m) (unquote w))) (EL rest).
 Proof. reflexivity. Qed.
 Lemma el_seq t rest : is_sequence_set (to_upper t) = true ->
   EL (t :: rest) = andk (matches_sequence_set (m_seq m) (to_upper t)) (EL rest).
@@ -147,17 +147,15 @@ Variables (nseq maxuid : Z).
 Variable mb : list smsg.
 Variables (i : Z) (sm : smsg).
 Hypothesis Hin : In (i, sm) (numbered mb).
+Hypothesis Hmb : mb_ok mb = true.
 Notation m := (to_msg (i, sm)).
 Notation EL := (eval_loop go_text rec m).
 Notation SP := (spec_eval nseq maxuid).
 
-Lemma flag_step w : w <> [] -> no_sp w = true -> flag_class w mb = None ->
-  contains (m_flags m) w = has_flag sm w.
+Lemma flag_step w : has_flag_go (m_flags m) w = has_flag sm w.
 Proof.
-  intros Hne Hsp H. unfold flag_class in H. destruct (flag_clean w mb) eqn:E; [|discriminate].
-  unfold flag_clean in E. rewrite forallb_forall in E.
-  cbn [to_msg m_flags]. unfold has_flag. apply flag_test; try assumption.
-  apply E. eapply in_numbered. exact Hin.
+  cbn [to_msg m_flags]. unfold has_flag. apply flag_test_go.
+  unfold mb_ok in Hmb. rewrite forallb_forall in Hmb. apply Hmb. eapply in_numbered. exact Hin.
 Qed.
 
 Lemma text_step k : text_class k mb = None -> text_agree_on k (i, sm) = true.
@@ -166,19 +164,15 @@ Proof.
   intros _. rewrite forallb_forall in E. now apply E.
 Qed.
 
-Lemma flag_name_facts f : flag_name f <> [] /\ no_sp (flag_name f) = true.
-Proof. destruct f; split; (discriminate || reflexivity). Qed.
-
 (** keys other than NOT / OR *)
 Lemma simple_step k rest : wf_key k = true -> simple_class k mb = None ->
   EL (key_tokens k ++ rest) = andk (SP k i sm) (EL rest).
 Proof.
   intros W C. destruct k; cbn [key_tokens app]; cbn [simple_class] in C; try discriminate.
   - (* ALL *) apply el_all.
-  - (* has flag *) rewrite el_has. destruct (flag_name_facts f). now rewrite flag_step.
-  - (* un flag *) rewrite el_un. destruct (flag_name_facts f). now rewrite flag_step.
-  - (* NEW *) rewrite el_new. destruct (flag_class flag_recent mb) eqn:E1; [discriminate|].
-    rewrite !flag_step; try assumption; (discriminate || reflexivity).
+  - (* has flag *) rewrite el_has. now rewrite flag_step.
+  - (* un flag *) rewrite el_un. now rewrite flag_step.
+  - (* NEW *) rewrite el_new. now rewrite !flag_step.
   - (* KEYWORD *) cbn [wf_key] in W. destruct (atom_facts w W) as (A1 & A2 & A3 & A4 & _).
     rewrite el_keyword, unquote_plain by assumption. now rewrite flag_step.
   - (* UNKEYWORD *) cbn [wf_key] in W. destruct (atom_facts w W) as (A1 & A2 & A3 & A4 & _).
